@@ -178,6 +178,32 @@ EXTRA = {
 for _k, _v in EXTRA.items():
     CHECKS[_k]["text"] += _v
 
+# Rounds 5 and 6 (sibling entry points, consumer behaviour, error side, rare inputs); see DESIGN.md section 4.
+EXTRA2 = {
+    "C01": "; every spelling of x/X m/M l/L behind `<?` (declaration vs PI)",
+    "C02": "; ten consumer buffer policies (cleared / never cleared / reset to bytes that look like half a terminator); byte classes; UTF-16 BOM prefixes",
+    "C03": "; raw reads through Reader::stream() after every event (io::Read and multi-poll AsyncRead::read_exact)",
+    "C04": "; from every Start, on clones, read_to_end / read_text must agree with the stack model",
+    "C05": "; the generic NsReader::resolve compared with the specialised calls; two prefixes bound to the XSI namespace",
+    "C06": "; to_writer, to_utf8_io_writer into a one-byte sink and to_string_with_root must agree with to_string; u64/usize in simple-type position, infinities",
+    "C07": "; prolog soup, char targets, prefixed elements, tokens <!--> and &#xD800;",
+    "C08": "; raw reads through stream() return the next input bytes and advance the position by their number",
+    "C09": "; (&str, Cow<str>) attribute conversions, BytesCData::*escape conversions, every ElementWriter call sequence through the async methods under sink deviations",
+    "C10": "; a catch-all entity resolver that must never be asked about character references",
+    "C11": "; BytesStart::try_get_attribute against the grammar",
+    "C12": "; the skipping calls on an NsReader (also over content a resolver would reject); a user buffer that is never cleared",
+    "C13": "; strings written through Serializer::collect_str; form feed",
+    "C14": "; lists as items of element sequences; text-only unknown elements followed by text",
+    "C15": "; custom-entity rewrite read through the resolver-taking constructors; DEL/NEL as character references",
+    "C16": "; every spelling of the xml target",
+    "C17": "; BytesCData::*escape().unescape() in every encoding",
+    "C18": "; after a hard error the run continues: every event returned later must be an event of the fault-free run at the same position",
+    "C19": "; a whole-output positional rule (tokens of the plain output from the reference lexer) on writer sequences, serde values and ElementWriter call sequences",
+    "C20": "; xsi:nil elements and scalar $value enum elements at every position; same-name nesting with different attributes; limits up to usize::MAX",
+}
+for _k, _v in EXTRA2.items():
+    CHECKS[_k]["text"] += _v
+
 PENDING_REASON = "check not built yet (work in progress; see DESIGN.md §9 for the order of work)"
 
 ALL = ["C%02d" % i for i in range(1, 21)]
